@@ -684,6 +684,9 @@ def io_overrides(st, ctx):
     def path(it, args, callee):
         return Opaque("PathBuf", ())
 
+    def exists(it, args, callee):
+        return decide("path_exists")
+
     def parser(it, args, callee):
         return Opaque("Parser")
 
@@ -693,7 +696,7 @@ def io_overrides(st, ctx):
     def ps_new(it, args, callee):
         return mk_phonetic_suggestion(it.p, [], user_autocorrect=args[0])
     return {"PhoneticSuggestion::new": ps_new, "fs::read": fs_read, "from_slice": from_slice, "File::open": file_open, "File::metadata": metadata,
-            "Metadata::modified": modified, "fs::metadata": metadata, "Metadata::len": meta_len, "Read::read_to_end": read_to_end,
+            "Metadata::modified": modified, "fs::metadata": metadata, "Path::exists": exists, "Path::is_file": exists, "PathBuf::exists": exists, "Metadata::len": meta_len, "Read::read_to_end": read_to_end,
             "serde_json::to_string": to_string, "fs::write": fs_write, "Config::get_user_phonetic_selection_data": path,
             "Config::get_user_phonetic_autocorrect": path, "Parser::new_phonetic": parser, "Parser::new_regex": parser}
 
